@@ -30,6 +30,7 @@ type harnessSpec struct {
 	MaxPaths      int64          `json:"max_paths"`
 	HangMs        int            `json:"hang_ms"`
 	Race          bool           `json:"race"`
+	TryWitnesses  int            `json:"try_witnesses"`
 }
 
 type checkSpec struct {
